@@ -8,6 +8,7 @@
 #include <errno.h>
 #include <unistd.h>
 #include "vtrace.h"
+#include "galloc.h"
 
 #include <sys/mman.h>
 /* every mapping of a shared segment is followed by an inaccessible page: an access behind the last page of the segment faults
@@ -57,6 +58,7 @@ int main (int argc, char **argv) {
 	in = fopen (argv[1], "r"); if (!in) { perror (argv[1]); return 2; }
 	vt_open (argv[2]);
 	p_libsys_init (); p_libsys_shutdown (); p_libsys_init ();      /* the library is used after a shutdown / re-initialisation cycle */
+	if (!ga_install ()) return 2;      /* fresh memory is garbage, released memory is overwritten (galloc.h) */
 	while (fgets (line, sizeof line, in)) {
 		char *p = line; int n = 0;
 		if (sscanf (p, "%31s%n", op, &n) < 1) continue;
@@ -133,6 +135,7 @@ int main (int argc, char **argv) {
 	}
 	raw_close ();
 	{ int i; for (i = 0; i < MAXH; i++) if (hb[i]) { p_shm_buffer_take_ownership (hb[i]); p_shm_buffer_free (hb[i]); } }
+	p_mem_restore_vtable ();
 	p_libsys_shutdown ();
 	vt_close ();
 	return 0;
